@@ -19,10 +19,10 @@ LEVEL_TEXT = ('each reader (trash-list, trash-restore under 3 sort modes, trash-
               'listed, offered, restored, removed and purged among the well-formed entries must equal the run on the directory without the neighbours')
 LEVEL_NOTE = 'trusted: the shim\'s directory-order seam (listdir/scandir results are permuted); exit status and the fate of the malformed entries are don\'t-care'
 RULE = ('W in {1 home entry, 1 home + 1 volume entry, 2 home entries} x M subsets (|M|<=1 quick, <=2 thorough) of {non-.trashinfo file, empty, header only, binary, '
-        'non-UTF-8, no Path, no DeletionDate, bad date, the same two sharing the Path of a well-formed entry, info without payload, payload without info, directory named x.trashinfo, files named .trashinfo / ..trashinfo / ...trashinfo} x all permutations of info/ (<= 4!) x '
+        'non-UTF-8, no Path, no DeletionDate, bad date, the same two sharing the Path of a well-formed entry, info without payload, payload without info, directory named x.trashinfo, files named .trashinfo / ..trashinfo / ...trashinfo, a Path escape that is not UTF-8} x all permutations of info/ (<= 4!) x '
         'readers {list, restore date|path|none, rm exact, rm *, empty, empty 0, empty 7}; non-trivial = a malformed neighbour was read before a well-formed entry; '
         'distinct = (reader, neighbour kinds, outcome)')
-MK = ['nontrashinfo', 'empty', 'header', 'binary', 'nonutf8', 'nopath', 'nodate', 'baddate', 'nopayload', 'orphan', 'dirinfo', 'nodate-samepath', 'baddate-samepath', 'dangling-link-info', 'loop-link-info', 'tzdate', 'noname-empty', 'noname-valid', 'dotname-valid', 'dotdotname-valid']
+MK = ['nontrashinfo', 'empty', 'header', 'binary', 'nonutf8', 'nopath', 'nodate', 'baddate', 'nopayload', 'orphan', 'dirinfo', 'nodate-samepath', 'baddate-samepath', 'dangling-link-info', 'loop-link-info', 'tzdate', 'noname-empty', 'noname-valid', 'dotname-valid', 'dotdotname-valid', 'badescape']
 READERS = ['list', 'restore-date', 'restore-path', 'restore-none', 'rm-exact', 'rm-star', 'empty', 'empty0', 'empty7']
 WSETS = ['h1', 'h1+v1', 'h2']
 TD = scen.HOME_TRASH
@@ -97,6 +97,8 @@ def build(ws, ms):
             W.file(TD + '/info/..trashinfo', '[Trash Info]\nPath=/home/u/w/dotname\nDeletionDate=2001-01-01T00:00:00\n')
         elif m == 'dotdotname-valid':
             W.file(TD + '/info/...trashinfo', '[Trash Info]\nPath=/home/u/w/dotdotname\nDeletionDate=2001-01-01T00:00:00\n')
+        elif m == 'badescape':
+            scen.add_trashed(W, TD, 'e-badescape', None, raw='[Trash Info]\nPath=/home/u/w/caf%E9\nDeletionDate=2020-01-01T00:00:00\n')
         elif m == 'dangling-link-info':
             W.link(TD + '/info/g-dangling.trashinfo', 'no-such-file')
         elif m == 'loop-link-info':
